@@ -314,6 +314,13 @@ pub fn contexts() -> Vec<Ctx> {
         // a second group-carrying delegate whose group sits in a {0} repeat (the automata engine never writes its slots)
         ("(a)(?=b)b(X){0}c", Box::new(move |x| Concat(vec![Node::group(la()), Look(b(lb()), false, false), lb(), Repeat(b(Node::group(x)), 0, Some(0), Mode::Greedy), Node::lit("c")]))),
         ("(X)\\bb(a){0}(c)", Box::new(move |x| Concat(vec![Node::group(x), Assert(A::WordB), lb(), Repeat(b(Node::group(la())), 0, Some(0), Mode::Greedy), Node::group(Node::lit("c"))]))),
+        // a look-behind alternation with alternatives of different length, both capturing, both
+        // matching at one position, the reference needs the LATER one
+        ("(?<=(b)|(X))\\2", Box::new(move |x| Concat(vec![Look(b(Alt(vec![Node::group(lb()), Node::group(x)])), true, false), Backref(2)]))),
+        ("(?<=(b)|(aX))(?:\\2|b)", Box::new(move |x| Concat(vec![Look(b(Alt(vec![Node::group(lb()), Node::group(Concat(vec![la(), x]))])), true, false), Alt(vec![Backref(2), lb()])]))),
+        // a dot in a VM-compiled look-behind body that may step to the left of the search start
+        ("(?<=\\b(X)(?!a))", Box::new(move |x| Look(b(Concat(vec![Assert(A::WordB), Node::group(x), Look(b(la()), false, true)])), true, false))),
+        ("(?<=(?=)(.)(?!X))-?", Box::new(move |x| Concat(vec![Look(b(Concat(vec![Look(b(Empty), false, false), Node::group(Any(false)), Look(b(x), false, true)])), true, false), Repeat(b(Node::lit("-")), 0, Some(1), Mode::Greedy)]))),
         // an optional group that ends in a negative look-around (its Split branch and the
         // look-around's own branch sit next to each other on the stack)
         ("a(?:X|(?!b))?b", Box::new(move |x| Concat(vec![la(), Repeat(b(Alt(vec![x, Look(b(lb()), false, true)])), 0, Some(1), Mode::Greedy), lb()]))),
@@ -702,4 +709,64 @@ pub fn literal_loop_family() -> Vec<Node> {
         }
     }
     out
+}
+
+/// All ways of putting ONE run of two or more adjacent elements of one concatenation (at any
+/// depth) into a non-capturing group: `abc` -> `(?:ab)c`, `a(?:bc)`. The group has no flags,
+/// so nothing may change. (A KeepOut or a conditional reference is never moved into a group:
+/// the run keeps their position relative to the enclosing groups.)
+pub fn noncap_wraps(n: &Node, limit: usize) -> Vec<Node> {
+    let mut out = vec![];
+    fn go(n: &Node, rebuild: &dyn Fn(Node) -> Node, out: &mut Vec<Node>, limit: usize) {
+        if out.len() >= limit {
+            return;
+        }
+        if let Concat(v) = n {
+            for i in 0..v.len() {
+                for j in i + 1..v.len() {
+                    if j - i + 1 == v.len() && v.len() == 2 {
+                        // wrapping the whole two-element concatenation is still a change of nesting
+                    }
+                    let mut w: Vec<Node> = v[..i].to_vec();
+                    w.push(NonCap(b(Concat(v[i..=j].to_vec()))));
+                    w.extend(v[j + 1..].iter().cloned());
+                    let wrapped = if w.len() == 1 { w.pop().unwrap() } else { Concat(w) };
+                    out.push(rebuild(wrapped));
+                    if out.len() >= limit {
+                        return;
+                    }
+                }
+            }
+        }
+        let kids = n.children();
+        for k in 0..kids.len() {
+            let rb = |c: Node| rebuild(replace_child_raw(n, k, c));
+            go(kids[k], &rb, out, limit);
+        }
+    }
+    go(n, &|x| x, &mut out, limit);
+    out
+}
+
+/// `replace_child` without the flattening of nested concatenations.
+fn replace_child_raw(n: &Node, i: usize, v: Node) -> Node {
+    let mut n = n.clone();
+    match &mut n {
+        Concat(w) | Alt(w) => w[i] = v,
+        Group(_, c) | NonCap(c) | Atomic(c) | Repeat(c, ..) | Look(c, ..) | Flags(_, _, Some(c)) => **c = v,
+        CondGroup(_, y, no) => {
+            if i == 0 {
+                **y = v
+            } else {
+                **no = v
+            }
+        }
+        CondExpr(c, y, no) => match i {
+            0 => **c = v,
+            1 => **y = v,
+            _ => **no = v,
+        },
+        _ => unreachable!(),
+    }
+    n
 }
